@@ -9,6 +9,14 @@ CLAIMED = {
    note="Trusted: z3; the numpy/numba model of DESIGN 3.2/3.6 (validated per run by a differential self-test against the compiled kernel and by replaying every model); plans with out-of-range accesses are excluded here and reported under C13. documented-count clause for 6 days only in the thorough tier (case split over the first two days).",
    design="4/C07"),
 }
+CLAIMED["C08"] = dict(
+   text="Definition and bounds of the travel length by induction over the kernel's own loop structure: each piece of the real game_plan_length source (prologue, start-at-home, one day, trip home, return) is run from an arbitrary state satisfying a stated invariant and must add exactly the step of the declarative tournament walk and re-establish the invariant (n up to 8 quick / 16 thorough, all plans -n..n, symbolic distances 0..10^6, bye penalty and bounds from the real GamePlanLength methods); whole-kernel cross-checks at n=2; bye clause by two symbolic runs per concrete position (n=4); optimum clause for the shipped four-team instances by the solver over all plans (no error-free plan below the published optimum: unsat; one of exactly that length: sat, replayed).",
+   note="Trusted: z3; the numpy/numba model (self-test against the compiled kernel per run); the composition of the five pieces into the whole kernel is the usual loop induction and is guarded by a structural check of the AST (exit 2 if the loop structure changes) and by whole-run queries at n=2.",
+   design="4/C08")
+CLAIMED["C13"] = dict(
+   text="Every array access executed while the real kernel source runs on symbolic inputs carries the obligation -len <= index < len; per kernel the solver is asked for an input accepted by the public space that breaks one (unsat = no such input within the bound). Models are replayed through the public API in a fresh interpreter under NUMBA_BOUNDSCHECK=1.",
+   note="Covers the kernels listed in the evidence of the run (TTP: count_errors, game_plan_length, map_games; further kernels are added as their harnesses are built). Trusted: z3, the array shim's index semantics (negative wrap).",
+   design="4/C13")
 NA = {
  "C12": "quantifies over complete optimisation runs (moptipy Execution/Process, RNG streams, log files, budgets): no bounded symbolic encoding within reach; its solver-decidable ingredients are claimed under C01, C02, C04-C06, C19",
 }
